@@ -108,6 +108,22 @@ def scenario(rnd, with_cache):
                 continue
             if ref_id(sp) != jid:
                 return f"opening damaged job {jid} by id yielded a state point hashing to {ref_id(sp)}; damage {kinds}", sig
+        for jid in os.listdir(p.workspace):
+            # the read-only view (cached_statepoint, also used by repr) first, then the state point: the same rule
+            q2 = signac.Project(p.path)
+            try:
+                h = q2.open_job(id=jid)
+                csp = json.loads(json.dumps(dict(h.cached_statepoint)))
+            except Exception:
+                continue
+            if ref_id(csp) != jid:
+                return f"cached_statepoint of damaged job {jid} opened by id is a state point hashing to {ref_id(csp)}; damage {kinds}", sig
+            try:
+                sp = json.loads(json.dumps(h.statepoint()))
+            except Exception:
+                continue
+            if ref_id(sp) != jid:
+                return f"after reading cached_statepoint, the state point of damaged job {jid} hashes to {ref_id(sp)}; damage {kinds}", sig
         # repair
         q3 = signac.Project(p.path)
         recoverable = True
